@@ -210,9 +210,11 @@ def make_transcoder(
     processes = []
 
     # is byteswap needed at input?
-    swaps = list(
-        x.encoding.endianess != system_byte_order for x in data_streams
-    )
+    # one flag per channel: an interleaved stream contributes several channels
+    swaps = []
+    for x in data_streams:
+        num_channels = max(1, x.encoding.num_interleaved_channels)
+        swaps += [x.encoding.endianess != system_byte_order] * num_channels
     if any(swaps):
         if all(swaps):
             processes.append(("swap_input_endianess", swap_endianess))
